@@ -505,7 +505,7 @@ func (p *lowMemoryEventPool) wakeupWaiters() {
 		time.Sleep(p.wakeupInterval)
 		waiters := p.slowWaiters.Load()
 		eventsAvailable := p.eventsAvailable()
-		if waiters > 0 && !eventsAvailable {
+		if waiters > 0 && eventsAvailable {
 			// There are events in the pool, wake up waiting goroutines.
 			p.getCond.Broadcast()
 		}
